@@ -168,6 +168,57 @@ def run(tier):
         ncuts += len(cuts)
         if rc != 0:
             o.report("wal/session-died", "session %s exited rc=%s" % (name, rc), cfg)
+    # fsync(2) of the log file fails (EIO injected by strace) inside the K-th synchronous append: that call must return an error, and the
+    # log must still replay a prefix that contains every append acknowledged without error
+    nfs = 0
+    for K in ((1, 4, 9, 12) if thorough else (1, 5)):
+        work = common.scratch("C07-fsync-%d" % K)
+        root = os.path.join(work, "wal")
+        trace = os.path.join(work, "trace.ndjson")
+        recs = {"r%d" % i: (bytes([65 + i]) * (5 + 3 * i)).hex() for i in range(12)}
+        cfg = {"recs": recs, "maxsize": 1 << 30, "wbuf": 4096, "comp": 0, "dir": root,
+               "ops": [{"op": "appendsync", "rec": "r%d" % i} for i in range(K)] + [{"op": "close", "rec": ""}]}
+        with open(os.path.join(work, "in.json"), "w") as f:
+            json.dump(cfg, f)
+        slog = os.path.join(work, "strace.log")
+        sc = ["strace", "-f", "-yy", "-o", slog, "-e", "trace=fsync,fdatasync", "-e", "inject=fsync,fdatasync:error=EIO:when=%d" % K,
+              binary, "wal", os.path.join(work, "in.json"), trace]
+        rc, out, err, to = common.run_proc(sc, 120)
+        slines = open(slog, errors="replace").read().splitlines() if os.path.exists(slog) else []
+        hit = any("INJECTED" in ln and ".wal" in ln for ln in slines)
+        evs = common.read_ndjson(trace) if os.path.exists(trace) else []
+        rets = [e for e in evs if e.get("t") == "ret" and e.get("op") == "appendsync"]
+        if not hit or len(rets) < K:
+            o.problem("fsync fault %d was not placed inside a synchronous append (hit=%s, %d appends returned)" % (K, hit, len(rets)))
+            continue
+        rp = os.path.join(work, "rp.json")
+        with open(rp, "w") as f:
+            json.dump(dict(cfg, dirs=[root]), f)
+        rc2, out2, err2, to2 = common.run_proc([binary, "walreplay", rp], 60)
+        rr = {"ok": False, "err": "replay process died", "out": []}
+        for ln in (out2 or b"").decode("utf-8", "replace").splitlines():
+            try:
+                rr = json.loads(ln)
+            except ValueError:
+                pass
+        lines.append({"t": "reset", "case": len(sessions) + nfs})
+        nret = 0
+        for e in evs:
+            if e.get("t") in ("inv", "ret"):
+                ln = {"t": e["t"], "op": e.get("op", ""), "rec": e.get("rec", ""), "err": e.get("err", "")}
+                if e["t"] == "ret" and e.get("op") == "appendsync":
+                    nret += 1
+                    ln["fault"] = nret == K
+                    ln["wrote"] = True
+                if e["t"] == "ret" and e.get("op") == "close":
+                    ln["fault"] = False
+                    ln["err"] = ""          # whether Close of a log whose last fsync failed reports something is not judged
+                lines.append(ln)
+                if e["t"] == "inv":
+                    lines += [{"t": "fswrite", "file": "x.wal"}, {"t": "fsync", "file": "x.wal"}]
+        lines.append({"t": "cp", "idx": -1, "desc": "after fsync fault %d" % K, "ok": bool(rr.get("ok")), "err": (rr.get("err") or "")[:200], "out": rr.get("out") or [], "clean": False})
+        nfs += 1
+    o.extra["fsync_faults_placed"] = nfs
     tp = os.path.join(common.scratch("C07-judge"), "judge.ndjson")
     common.write_ndjson(tp, lines)
     nok, bad, r = judge.judge_trace("WALTrace.tla", "WALTrace.cfg", tp, o, "WAL crash-point judge")
